@@ -3,9 +3,11 @@
 set -u
 P=$1; shift
 cd /verif
+# evidence and replays of a seeded run must not overwrite the committed evidence of the unchanged tree
+export VERIF_EVID=$(mktemp -d /tmp/st-verif-seedrun.XXXXXX)
 git -C /repo diff --quiet || { echo "/repo is dirty; refusing"; exit 2; }
 git -C /repo apply "$P" || { echo "patch does not apply"; exit 2; }
-trap 'git -C /repo checkout -- . ' EXIT
+trap 'git -C /repo checkout -- . ; rm -rf $VERIF_EVID' EXIT
 for prop in "$@"; do
   echo "=== $prop with $(basename $(dirname $P))/$(basename $P)"
   ./run_check.py $prop --tier ${TIER:-quick} 2>&1 | grep -v "^building\|^build finished" | cut -c1-400 | tail -8
